@@ -1,8 +1,11 @@
 import Driver.Common
 import EgVerif.Spec.MuxCache
 /-!
-Judge for C12 (harness `twin`): two mux instances built from the same spec — cache disabled and
-`cacheSize = n` — were fed the same request history.
+Judge for C12 (harness `twin`): two mux objects built from the same spec — cache disabled and
+`cacheSize = n` — were fed the same history of requests and in-place reloads (`mux.reload` on the same
+object; an element of `reqs` with a `reload` member is a reload with that spec, applied to both twins,
+the cache-less twin always with cacheSize 0). The model run is `MuxCache.runOps` (fresh cache per
+reload), the reference `refOps` (cache-less search under the configuration current at that point).
 
 * `agree`  — the cache-less instance equals `Mux.search`, the cached instance equals
   `MuxCache.runCached` (eviction oracle := the hit/miss bits the harness probed), and the hit bits are
@@ -17,14 +20,13 @@ open Lean Driver EgVerif.Mux EgVerif.MuxCache
 
 namespace Driver.C12
 
-structure Parsed where
-  cfg : Cfg
-  nFilters : Nat
-  pats : Array String
-  lvlServer : Bool
-  lvlRule : Bool
-  lvlPath : Bool
-  hasHdr : Bool
+structure Acc where
+  pats : Array String := #[]
+  nFilters : Nat := 0
+  lvlServer : Bool := false
+  lvlRule : Bool := false
+  lvlPath : Bool := false
+  hasHdr : Bool := false
 
 def optArr (j : Json) (k : String) : Array Json :=
   match getArr j k with | .ok a => a | .error _ => #[]
@@ -38,20 +40,23 @@ def isNull (j : Json) (k : String) : Bool :=
   | .ok _ => false
   | .error _ => true
 
-/-- id of a regexp pattern = index of its first occurrence in traversal order. -/
+/-- id of a regexp pattern = index of its first occurrence in traversal order (over all specs). -/
 def patId (pats : Array String) (p : String) : Array String × Option Nat :=
   if p == "" then (pats, none)
   else match pats.toList.idxOf? p with
     | some i => (pats, some i)
     | none => (pats.push p, some pats.size)
 
-def parseCfg (input : Json) : Parsed := Id.run do
-  let mut pats : Array String := #[]
-  let mut nf : Nat := 0
-  let mut lvlS := false
-  let mut lvlR := false
-  let mut lvlP := false
-  let mut hasHdr := false
+/-- One spec (`filter`, `rules`) → `Cfg`. Filter ids are global over all specs of the case: one id per
+filter occurrence in traversal order (server, then per rule: rule filter, per path: path filter), spec
+after spec — the row index of the harness' `allow` table. -/
+def parseSpec (input : Json) (acc : Acc) : Cfg × Acc := Id.run do
+  let mut pats := acc.pats
+  let mut nf := acc.nFilters
+  let mut lvlS := acc.lvlServer
+  let mut lvlR := acc.lvlRule
+  let mut lvlP := acc.lvlPath
+  let mut hasHdr := acc.hasHdr
   let mut sf : Option Nat := none
   if !isNull input "filter" then
     sf := some nf; nf := nf + 1; lvlS := true
@@ -81,27 +86,55 @@ def parseCfg (input : Json) : Parsed := Id.run do
     let ru : Rule := ⟨optStr rj "host", hre, rf, paths.toList⟩
     rules := rules.push ru
   let cfg : Cfg := ⟨sf, rules.toList⟩
-  return ⟨cfg, nf, pats, lvlS, lvlR, lvlP, hasHdr⟩
+  return (cfg, ⟨pats, nf, lvlS, lvlR, lvlP, hasHdr⟩)
 
-def parseReqs (input obs : Json) : List Req := Id.run do
+structure Parsed where
+  acc : Acc
+  ops : List Op                 -- `reload spec0 :: …` as applied to the cached twin
+  reqs : List Req               -- the request elements, in order
+  genOf : List Nat              -- per request: index of the generation serving it
+  gens : List (Cfg × Nat)       -- per generation: configuration and cacheSize
+
+def parseReq (qj : Json) (hnp : Option String) : Req :=
+  let host := optStr qj "host"
+  let hdr : List (String × String) := (optArr qj "hdr").toList.map fun kv =>
+    match kv.getArr? with
+    | .ok a => ((a[0]?.bind (·.getStr?.toOption)).getD "", (a[1]?.bind (·.getStr?.toOption)).getD "")
+    | .error _ => ("", "")
+  ⟨host, hnp.getD host, optStr qj "method", optStr qj "path", hdr, optStr qj "ip"⟩
+
+def parseCase (input obs : Json) : Parsed := Id.run do
   let hnp := optStrList obs "hostNoPort"
-  let mut out : Array Req := #[]
-  let mut i := 0
+  let (cfg0, acc0) := parseSpec input {}
+  let size0 := (optInt input "cacheSize" 1).toNat
+  let size0 := if size0 == 0 then 1 else size0
+  let mut acc := acc0
+  let mut ops : Array Op := #[.reload ⟨cfg0, true⟩]
+  let mut gens : Array (Cfg × Nat) := #[(cfg0, size0)]
+  let mut reqs : Array Req := #[]
+  let mut genOf : Array Nat := #[]
   for qj in optArr input "reqs" do
-    let host := optStr qj "host"
-    let hdr : List (String × String) := (optArr qj "hdr").toList.map fun kv =>
-      match kv.getArr? with
-      | .ok a => ((a[0]?.bind (·.getStr?.toOption)).getD "", (a[1]?.bind (·.getStr?.toOption)).getD "")
-      | .error _ => ("", "")
-    out := out.push ⟨host, (hnp[i]?).getD host, optStr qj "method", optStr qj "path", hdr, optStr qj "ip"⟩
-    i := i + 1
-  return out.toList
+    if !isNull qj "reload" then
+      match qj.getObjVal? "reload" with
+      | .ok sj =>
+        let (c, a) := parseSpec sj acc
+        acc := a
+        let sz := (optInt sj "cacheSize" 0).toNat
+        ops := ops.push (.reload ⟨c, sz > 0⟩)
+        gens := gens.push (c, sz)
+      | .error _ => pure ()
+    else
+      let q := parseReq qj (hnp[reqs.size]?)
+      ops := ops.push (.request q)
+      reqs := reqs.push q
+      genOf := genOf.push (gens.size - 1)
+  return ⟨acc, ops.toList, reqs.toList, genOf.toList, gens.toList⟩
 
 def parseObsList (obs : Json) (k : String) : List Obs :=
   (optArr obs k).toList.map fun r =>
     ⟨(optInt r "status").toNat, optStr r "backend", optStr r "path"⟩
 
-def mkOracle (p : Parsed) (reqs : List Req) (obs : Json) : Oracle :=
+def mkOracle (pats : Array String) (reqs : List Req) (obs : Json) : Oracle :=
   let reTab : List (String × String × Bool) := (optArr obs "re").toList.filterMap fun t =>
     match t.getArr? with
     | .ok a => match a[0]?, a[1]?, a[2]? with
@@ -113,7 +146,7 @@ def mkOracle (p : Parsed) (reqs : List Req) (obs : Json) : Oracle :=
     | .ok a => a.toList.map (fun b => (b.getBool?.toOption).getD true)
     | .error _ => []
   let ips := reqs.map (·.ip)
-  { ρ := fun i s => match p.pats[i]? with
+  { ρ := fun i s => match pats[i]? with
       | some pat => match reTab.find? (fun t => t.1 == pat && t.2.1 == s) with
         | some t => t.2.2
         | none => false
@@ -153,6 +186,10 @@ def classify (o : Oracle) (cfg : Cfg) (known : String → Bool) (rw : PathEntry 
       | some _ => "cache:key-collision"
       | none => unexplained
 
+/-- indices (request numbers) served by generation `g` -/
+def genIdxs (genOf : List Nat) (g : Nat) : List Nat :=
+  (List.range genOf.length).filter (fun i => genOf[i]? == some g)
+
 def judge : Judge := liftJudge fun input obs => do
   match obsPanic obs with
   | some m => pure { agree := false, spec := false, sig := "panic", note := m }
@@ -160,26 +197,30 @@ def judge : Judge := liftJudge fun input obs => do
   match getStr obs "error" with
   | .ok e => pure { agree := true, spec := true, tags := ["harness-error:" ++ e], nontrivial := false }
   | .error _ =>
-  let p := parseCfg input
-  let reqs := parseReqs input obs
-  let o := mkOracle p reqs obs
+  let p := parseCase input obs
+  let reqs := p.reqs
+  let o := mkOracle p.acc.pats reqs obs
   let missing := optStrList input "missing"
   let known : String → Bool := fun b => !missing.contains b
   let rw := rewrite (fun _ path => path)
-  let cacheSize := (optInt input "cacheSize" 1).toNat
   let gotU := parseObsList obs "uncached"
   let gotC := parseObsList obs "cached"
   let hitBits : List Bool := (optArr obs "hit").toList.map (fun b => (b.getBool?.toOption).getD false)
   -- model
-  let routesU := reqs.map (search o p.cfg)
+  let routesU := refOps o {} p.ops
   let wantU := List.zipWith (obsOf known rw) routesU reqs
   let ev : Nat → Key → Bool := fun n _ => !((hitBits[n]?).getD false)
-  let routesC := runCached o p.cfg ev reqs
+  let routesC := runOps o ev 0 newMux p.ops
   let wantC := List.zipWith (obsOf known rw) routesC reqs
-  let resident := residentFrom o p.cfg ev 0 [] reqs
-  let distinctKeys := (reqs.map keyOf).eraseDups.length
+  let resident := residentOps o ev 0 newMux p.ops
   let hitOK := (List.zipWith (fun h r => !h || r) hitBits resident).all id
-  let missOK := distinctKeys > cacheSize || (List.zipWith (fun h r => h || !r) hitBits resident).all id
+  -- per generation: without eviction pressure (no more distinct keys than cacheSize) a resident key must hit
+  let nGens := p.gens.length
+  let missOK := (List.range nGens).all fun g =>
+    let idxs := genIdxs p.genOf g
+    let size := ((p.gens[g]?).map (·.2)).getD 0
+    let keys := (idxs.filterMap (fun i => (reqs[i]?).map keyOf)).eraseDups
+    keys.length > size || idxs.all (fun i => (hitBits[i]?).getD false || !((resident[i]?).getD false))
   let agreeU := decide (gotU = wantU)
   let agreeC := decide (gotC = wantC)
   let agree := agreeU && agreeC && hitOK && missOK && hitBits.length == reqs.length
@@ -187,13 +228,34 @@ def judge : Judge := liftJudge fun input obs => do
   let spec := specOK gotC gotU && gotC.length == reqs.length
   let sig := if spec then "" else
     match firstDiff gotC gotU 0 with
-    | some i => classify o p.cfg known rw reqs i ((gotC[i]?).getD ⟨0, "", ""⟩) ((gotU[i]?).getD ⟨0, "", ""⟩)
+    | some i =>
+      let got := (gotC[i]?).getD ⟨0, "", ""⟩
+      let want := (gotU[i]?).getD ⟨0, "", ""⟩
+      let g := (p.genOf[i]?).getD 0
+      -- the implementation answered this key, in this generation, from an entry the model's
+      -- (fresh) cache of this generation never held: it can only stem from an earlier generation
+      let residentKeep := residentOpsKeep o ev 0 newMux p.ops
+      let staleHit := g > 0 && (List.range (i + 1)).any fun j =>
+        (p.genOf[j]?).getD 0 == g && (reqs[j]?).map keyOf == (reqs[i]?).map keyOf
+          && (hitBits[j]?).getD false && !((resident[j]?).getD false) && (residentKeep[j]?).getD false
+      let keep := runOpsKeep o ev 0 newMux p.ops
+      let keepExplains := match keep[i]?, reqs[i]? with
+        | some r, some q => obsOf known rw r q == got
+        | _, _ => false
+      if staleHit then (if keepExplains then "cache:stale-generation" else "cache:stale-generation-unexplained")
+      else
+        -- classify inside the generation serving request i
+        let idxs := genIdxs p.genOf g
+        let start := idxs.head?.getD 0
+        let cfg := ((p.gens[g]?).map (·.1)).getD {}
+        classify o cfg known rw (reqs.drop start) (i - start) got want
     | none => "cache:length-mismatch"
   let note := if agree then "" else
     (if !agreeU then "uncached!=model " else "") ++ (if !agreeC then "cached!=model " else "")
-    ++ (if !hitOK then "hit-on-key-the-model-never-put " else "")
+    ++ (if !hitOK then "hit-on-key-the-model-never-put-in-this-generation " else "")
     ++ (if !missOK then "miss-on-resident-key-without-eviction-pressure " else "")
   -- classification of the case
+  let cacheSize := ((p.gens[0]?).map (·.2)).getD 1
   let nHit := (hitBits.filter id).length
   let evicted := (List.zipWith (fun h r => !h && r) hitBits resident).any id
   let hitRoutes := (routesC.zip hitBits).filter (·.2) |>.map (·.1)
@@ -202,6 +264,22 @@ def judge : Judge := liftJudge fun input obs => do
   let collide := reqs.any (fun a => reqs.any (fun b => Old.keyOf a == Old.keyOf b && keyOf a != keyOf b))
   let sameKeyOtherClient := reqs.any (fun a => reqs.any (fun b => keyOf a == keyOf b && (a.ip != b.ip || a.hdr != b.hdr)))
   let stat (c : Nat) := wantU.any (fun x => x.status == c)
+  -- reloads
+  let nReload := nGens - 1
+  let genPairs := p.gens.zip (p.gens.drop 1)
+  let hitAfterReload := (List.range reqs.length).any (fun i => (hitBits[i]?).getD false && (p.genOf[i]?).getD 0 > 0)
+  -- a key requested (and, in the model, resident) before a reload is requested again after it
+  let keyAcross := (List.range reqs.length).any fun i => (List.range reqs.length).any fun j =>
+    i < j && (p.genOf[i]?).getD 0 < (p.genOf[j]?).getD 0 && (reqs[i]?).map keyOf == (reqs[j]?).map keyOf
+      && (resident[i]?).getD false
+  let strip (c : Cfg) : Cfg := { c with ipFilter := none, rules := c.rules.map (fun r =>
+    { r with ipFilter := none, paths := r.paths.map (fun e => { e with ipFilter := none }) }) }
+  let onlyServer := genPairs.any (fun (a, b) => a.1.rules.map (·.paths.length) == b.1.rules.map (·.paths.length)
+    && strip a.1 == strip b.1 && a.2 == b.2 && a.1.ipFilter.isSome != b.1.ipFilter.isSome)
+  let sameRouting := genPairs.any (fun (a, b) => strip a.1 == strip b.1)
+  let rulesChange := genPairs.any (fun (a, b) => strip a.1 != strip b.1)
+  let sizeChange := genPairs.any (fun (a, b) => a.2 != b.2)
+  let cacheOff := (p.gens.drop 1).any (fun g => g.2 == 0)
   let tags := [s!"cacheSize:{if cacheSize ≥ 16 then "16+" else toString cacheSize}"]
     ++ (if nHit > 0 then ["hit"] else ["no-hit"])
     ++ (if evicted then ["eviction"] else [])
@@ -209,11 +287,19 @@ def judge : Judge := liftJudge fun input obs => do
     ++ (if hitStat 405 then ["hit:405"] else []) ++ (if hitPath then ["hit:path"] else [])
     ++ (if collide then ["colliding-concatenation"] else [])
     ++ (if sameKeyOtherClient then ["same-key-other-client"] else [])
-    ++ (if p.hasHdr then ["cfg:header-cond"] else [])
-    ++ (if p.lvlServer then ["cfg:filter-server"] else []) ++ (if p.lvlRule then ["cfg:filter-rule"] else [])
-    ++ (if p.lvlPath then ["cfg:filter-path"] else [])
+    ++ (if p.acc.hasHdr then ["cfg:header-cond"] else [])
+    ++ (if p.acc.lvlServer then ["cfg:filter-server"] else []) ++ (if p.acc.lvlRule then ["cfg:filter-rule"] else [])
+    ++ (if p.acc.lvlPath then ["cfg:filter-path"] else [])
     ++ ([200, 400, 403, 404, 405, 503].filter stat).map (fun c => s!"status:{c}")
     ++ (if reqs.length ≤ 6 then ["short-history"] else [])
+    ++ [s!"reloads:{if nReload ≥ 3 then "3+" else toString nReload}"]
+    ++ (if hitAfterReload then ["reload:hit-in-later-generation"] else [])
+    ++ (if keyAcross then ["reload:cached-key-requested-again-after"] else [])
+    ++ (if onlyServer then ["reload:server-filter-added-or-removed-only"] else [])
+    ++ (if sameRouting then ["reload:filters-only-or-identical"] else [])
+    ++ (if rulesChange then ["reload:rules-change"] else [])
+    ++ (if sizeChange then ["reload:cacheSize-change"] else [])
+    ++ (if cacheOff then ["reload:to-cache-off"] else [])
   pure { agree := agree, spec := spec, expected := Json.mkObj [("uncached", obsToJson wantU), ("cached", obsToJson wantC)],
          tags := tags, nontrivial := nHit > 0, sig := sig, note := note }
 
